@@ -189,6 +189,7 @@ func (t *Dense) WriteCSV(w io.Writer, formats ...string) (err error) {
 			}
 			cw.Flush()
 			record = record[:0]
+			k = 0 // k indexes the record of the current row
 		}
 
 		// cleanup
